@@ -34,6 +34,14 @@ theorem file_equals_iff_bytes (a b : List Nat) (page : Nat) (hp : 0 < page) (all
     fileEquals (some a) (some b) false page allocOk = decide (a = b) := by
   exact fileEquals_some a b page hp allocOk
 
+/-- The same for files whose reported size says nothing: whenever each `st_size` is either the true
+length or zero (procfs text files, FIFOs, devices), the result is still exactly "identical bytes" —
+an empty file never equals a procfs file with content, and a procfs file equals its copy. -/
+theorem file_equals_sized_iff_bytes (a b : List Nat) (sa sb page : Nat) (hp : 0 < page) (allocOk : Bool)
+    (ha : sa = a.length ∨ sa = 0) (hb : sb = b.length ∨ sb = 0) :
+    fileEqualsSized a b sa sb false page allocOk = decide (a = b) :=
+  fileEqualsSized_eq a b sa sb page hp allocOk ha hb
+
 theorem file_equals_symm (a b : Option (List Nat)) (same : Bool) (page : Nat) (hp : 0 < page) (allocOk : Bool) :
     fileEquals a b same page allocOk = fileEquals b a same page allocOk := by
   cases a with
@@ -98,5 +106,9 @@ theorem mkdirs_empty (t : Tree) : createDirectories t [] = (t, 5) := by
 
 /-! ## non-vacuity -/
 example : (createDirectories ⟨[([[83]], .dir), ([[83], [119]], .dir)], [[83], [119]]⟩ [97, 47, 46, 46, 47, 98, 47]).2 = 0 := by decide
+
+-- an empty file against a file that reports size 0 but holds bytes; such a file against its copy
+example : fileEqualsSized [] [1, 2, 3] 0 0 false 4096 true = false := by decide
+example : fileEqualsSized [1, 2, 3] [1, 2, 3] 0 3 false 2 false = true := by decide
 
 end Zix.C15
